@@ -13,6 +13,7 @@ import (
 	"strings"
 	"time"
 
+	"github.com/containerd/nri/pkg/api"
 	"pgregory.net/rapid"
 
 	"nriverif/ev"
@@ -20,19 +21,21 @@ import (
 
 // behaviours of a launched executable (see cmd/probeplugin)
 const (
-	bOK       = "ok"
-	bExit     = "exit"        // exits at once (K = exit status)
-	bSleep    = "sleep"       // never registers, lingers
-	bCloseFD  = "closefd"     // closes the socket without registering, lingers
-	bCfgFail  = "cfgfail"     // fails Configure
-	bCfgHang  = "cfghang"     // never answers Configure (nri's request timeout), lingers until killed
-	bSyncFail = "syncfail"    // fails Synchronize
-	bDie      = "die"         // exits inside the handler of its K-th lifecycle event
-	bDieAfter = "dieafter"    // exits right after answering its K-th lifecycle event
-	bLinger   = "lingerafter" // closes its connection right after answering its K-th lifecycle event, keeps running
-	bCloseAt  = "closeat"     // closes its connection inside the handler of its K-th lifecycle event, keeps running
-	bHang     = "hang"        // never answers its K-th lifecycle event
-	bGarbage  = "garbage"     // executable regular file that is no program: fails to start
+	bOK        = "ok"
+	bExit      = "exit"        // exits at once (K = exit status)
+	bSleep     = "sleep"       // never registers, lingers
+	bCloseFD   = "closefd"     // closes the socket without registering, lingers
+	bCfgFail   = "cfgfail"     // fails Configure
+	bCfgHang   = "cfghang"     // never answers Configure (nri's request timeout), lingers until killed
+	bSyncFail  = "syncfail"    // fails Synchronize
+	bSyncHang  = "synchang"    // never answers Synchronize (request timeout), lingers until killed
+	bSyncClose = "syncclose"   // closes its connection instead of answering Synchronize, keeps running
+	bDie       = "die"         // exits inside the handler of its K-th lifecycle event
+	bDieAfter  = "dieafter"    // exits right after answering its K-th lifecycle event
+	bLinger    = "lingerafter" // closes its connection right after answering its K-th lifecycle event, keeps running
+	bCloseAt   = "closeat"     // closes its connection inside the handler of its K-th lifecycle event, keeps running
+	bHang      = "hang"        // never answers its K-th lifecycle event
+	bGarbage   = "garbage"     // executable regular file that is no program: fails to start
 )
 
 // Mode is a set of permission bits; in JSON an octal string ("0755").
@@ -61,6 +64,9 @@ type Plugin struct {
 	K       int    `json:"k,omitempty"`
 	Mode    Mode   `json:"mode"`              // permission bits, at least one execute bit
 	Garbage string `json:"garbage,omitempty"` // content kind of a garbage file: empty, text, elf
+	// Link: the directory entry is a symbolic link to the real file kept outside the plugin
+	// directory. Such an entry is not a regular file: whether nri launches it is counted, not judged.
+	Link bool `json:"link,omitempty"`
 }
 
 func (p Plugin) hasK() bool {
@@ -70,6 +76,14 @@ func (p Plugin) hasK() bool {
 	}
 	return false
 }
+
+// failsAtSync: the plugin registers and is configured, and fails when nri synchronizes it.
+func (p Plugin) failsAtSync() bool {
+	return p.Behav == bSyncFail || p.Behav == bSyncHang || p.Behav == bSyncClose
+}
+
+// reachesSync: the plugin gets through nri's start() and is handed to the synchronization.
+func (p Plugin) reachesSync() bool { return p.startsUp() || p.failsAtSync() }
 
 // failsAtEvent: the plugin starts up all right and fails at its K-th lifecycle event.
 func (p Plugin) failsAtEvent() bool {
@@ -99,7 +113,7 @@ func (p Plugin) File() string { return p.Idx + "-" + p.Base() }
 // reachesConfigure: the process registers and is sent Configure.
 func (p Plugin) reachesConfigure() bool {
 	switch p.Behav {
-	case bOK, bCfgFail, bCfgHang, bSyncFail, bDie, bDieAfter, bLinger, bCloseAt, bHang:
+	case bOK, bCfgFail, bCfgHang, bSyncFail, bSyncHang, bSyncClose, bDie, bDieAfter, bLinger, bCloseAt, bHang:
 		return true
 	}
 	return false
@@ -140,6 +154,7 @@ func (x Ext) Key() string { return "ext/" + x.Idx + "-" + x.Name }
 type Conf struct {
 	File    string `json:"file"`
 	Content string `json:"content"`
+	Link    bool   `json:"link,omitempty"` // the drop-in is a symbolic link to the file kept elsewhere
 }
 
 type C18Case struct {
@@ -169,6 +184,24 @@ type C18Case struct {
 	// immediately, "1ms", "20ms", "500ms" that much later — in these cases nothing is
 	// waited for or looked at between the last request and Stop.
 	StopAfter string `json:"stop_after,omitempty"`
+	// PluginPath / ConfPath: the shape of the path handed to WithPluginPath /
+	// WithPluginConfigPath: "" the directory itself; symlink (a symbolic link to it);
+	// symlink2 (a link to a link); symparent (a symbolic link among the parent components);
+	// slash (trailing slash); dots ("/./" and "//" inside); relative (relative to the
+	// working directory of the process).
+	PluginPath string `json:"plugin_path,omitempty"`
+	ConfPath   string `json:"conf_path,omitempty"`
+}
+
+var pathShapes = []string{"", "", "", "symlink", "symlink2", "symparent", "slash", "dots", "relative"}
+
+func isPathShape(s string) bool {
+	for _, k := range pathShapes {
+		if k == s {
+			return true
+		}
+	}
+	return false
 }
 
 var stopDelays = map[string]time.Duration{"": 0, "0": 0, "1ms": time.Millisecond, "20ms": 20 * time.Millisecond, "500ms": 500 * time.Millisecond}
@@ -259,6 +292,7 @@ func genC18(t *rapid.T) C18Case {
 			p.Idx = rapid.SampledFrom([]string{"10", "10", "20", "50", "99"}).Draw(t, "idx_behind")
 		}
 		p.Mode = rapid.SampledFrom(execModes).Draw(t, "mode")
+		p.Link = rapid.IntRange(0, 6).Draw(t, "link") == 3
 		nest := i > 0 && rapid.IntRange(0, 4).Draw(t, "nest") == 0
 		var src *Plugin
 		if nest {
@@ -273,7 +307,7 @@ func genC18(t *rapid.T) C18Case {
 			p.Stem, p.Behav, p.K, p.Garbage = src.Idx+"-"+src.Stem, src.Behav, src.K, src.Garbage
 		} else {
 			p.Stem = rapid.SampledFrom(stemPool).Draw(t, "stem")
-			pool := []string{bOK, bOK, bOK, bOK, bOK, bOK, bExit, bExit, bCloseFD, bCfgFail, bSyncFail, bDie, bDie, bDieAfter, bDieAfter, bLinger, bLinger, bCloseAt, bCloseAt, bCloseAt, bGarbage}
+			pool := []string{bOK, bOK, bOK, bOK, bOK, bOK, bExit, bExit, bCloseFD, bCfgFail, bSyncFail, bSyncFail, bSyncClose, bDie, bDie, bDieAfter, bDieAfter, bLinger, bLinger, bCloseAt, bCloseAt, bCloseAt, bGarbage}
 			if sleepers == 0 {
 				pool = append(pool, bSleep)
 			}
@@ -281,7 +315,7 @@ func genC18(t *rapid.T) C18Case {
 				pool = append(pool, bHang)
 			}
 			if cfgHangers == 0 && hangers == 0 {
-				pool = append(pool, bCfgHang) // at most one request-timeout plugin per ordinary case
+				pool = append(pool, bCfgHang, bSyncHang) // at most one request-timeout plugin per ordinary case
 			}
 			if stackBase > 0 && i == stackBase {
 				pool = []string{bOK} // at least one healthy plugin behind the stack
@@ -292,7 +326,7 @@ func genC18(t *rapid.T) C18Case {
 				sleepers++
 			case bHang:
 				hangers++
-			case bCfgHang:
+			case bCfgHang, bSyncHang:
 				cfgHangers++
 				hangers++
 			case bExit:
@@ -350,6 +384,48 @@ func genC18(t *rapid.T) C18Case {
 		}
 	}
 
+	// sync shape (3 cases in 8): the plugin that directly precedes a healthy launched plugin,
+	// among those nri hands to the synchronization, fails at the Synchronize stage
+	if rapid.SampledFrom([]bool{false, true, false, true, false, false, true, false}).Draw(t, "sync_shape") {
+		order := make([]int, 0, len(c.Plugins))
+		for i, p := range c.Plugins {
+			if p.reachesSync() {
+				order = append(order, i)
+			}
+		}
+		sort.Slice(order, func(a, b int) bool { return c.Plugins[order[a]].File() < c.Plugins[order[b]].File() })
+		var healthy []int // positions in order of plugins that start up
+		for pos, i := range order {
+			if c.Plugins[i].startsUp() {
+				healthy = append(healthy, pos)
+			}
+		}
+		if len(healthy) > 0 {
+			kinds := []string{bSyncFail, bSyncFail, bSyncClose}
+			if hangers == 0 {
+				kinds = append(kinds, bSyncHang)
+			}
+			kind := rapid.SampledFrom(kinds).Draw(t, "sync_kind")
+			pos := healthy[rapid.IntRange(0, len(healthy)-1).Draw(t, "sync_behind")]
+			var a *Plugin
+			if pos > 0 {
+				a = &c.Plugins[order[pos-1]]
+				delete(used, a.File())
+			} else {
+				c.Plugins = append(c.Plugins, Plugin{Idx: "00", Stem: "s", Mode: 0o755})
+				a = &c.Plugins[len(c.Plugins)-1]
+			}
+			a.Behav, a.K, a.Garbage = kind, 0, ""
+			for used[a.File()] {
+				a.Stem += "x"
+			}
+			used[a.File()] = true
+			if kind == bSyncHang {
+				hangers++
+			}
+		}
+	}
+
 	// other entries of the plugin directory
 	nOther := rapid.SampledFrom([]int{0, 0, 1, 1, 2, 3}).Draw(t, "nothers")
 	for i := 0; i < nOther; i++ {
@@ -360,7 +436,11 @@ func genC18(t *rapid.T) C18Case {
 		} else {
 			e.Name = rapid.SampledFrom(malformedNames).Draw(t, "oname")
 		}
-		if rapid.IntRange(0, 2).Draw(t, "isdir") == 0 {
+		if wellFormed && rapid.IntRange(0, 4).Draw(t, "islink") == 2 {
+			// a symbolic link to a directory or to a non-executable file, named like a plugin
+			e.Kind = rapid.SampledFrom([]string{"dirlink", "filelink"}).Draw(t, "linkkind")
+			e.Mode = 0o644
+		} else if rapid.IntRange(0, 2).Draw(t, "isdir") == 0 {
 			e.Kind = "dir"
 			e.Mode = rapid.SampledFrom([]Mode{0o755, 0o700, 0o711}).Draw(t, "dmode")
 			if rapid.Bool().Draw(t, "inner") {
@@ -392,7 +472,7 @@ func genC18(t *rapid.T) C18Case {
 		if body != "" {
 			body = "# " + file + "\n" + body // contents are distinct
 		}
-		c.Confs = append(c.Confs, Conf{File: file, Content: body})
+		c.Confs = append(c.Confs, Conf{File: file, Content: body, Link: rapid.IntRange(0, 4).Draw(t, label+"_link") == 2})
 	}
 	for i, p := range c.Plugins {
 		switch rapid.SampledFrom([]string{"none", "idx", "base", "both", "both"}).Draw(t, "confkind") {
@@ -427,6 +507,8 @@ func genC18(t *rapid.T) C18Case {
 	if len(c.Plugins) == 0 && len(c.Others) == 0 {
 		c.NoPluginDir = rapid.Bool().Draw(t, "noplugindir")
 	}
+	c.PluginPath = rapid.SampledFrom(pathShapes).Draw(t, "plugin_path")
+	c.ConfPath = rapid.SampledFrom(pathShapes).Draw(t, "conf_path")
 	if len(c.Confs) == 0 {
 		c.NoConfDir = rapid.Bool().Draw(t, "noconfdir")
 	}
@@ -498,8 +580,8 @@ func validate(c C18Case) error {
 			return fmt.Errorf("bad stem %q", p.Stem)
 		}
 		switch p.Behav {
-		case bOK, bExit, bCloseFD, bCfgFail, bSyncFail, bDie, bDieAfter, bLinger, bCloseAt, bGarbage:
-		case bCfgHang:
+		case bOK, bExit, bCloseFD, bCfgFail, bSyncFail, bSyncClose, bDie, bDieAfter, bLinger, bCloseAt, bGarbage:
+		case bCfgHang, bSyncHang:
 			cfgHangers++
 		case bSleep:
 			sleepers++
@@ -538,6 +620,12 @@ func validate(c C18Case) error {
 		case "dir":
 			if e.Inner != "" && strings.ContainsAny(e.Inner, "/\x00") {
 				return fmt.Errorf("bad inner name")
+			}
+		case "dirlink", "filelink":
+			// nri looks at a symbolic link's own mode (always rwx): a link with a name that does
+			// not parse would abort Start like an executable with such a name (precondition)
+			if _, _, err := api.ParsePluginName(e.Name); err != nil {
+				return fmt.Errorf("entry %q: a symbolic link needs a well-formed plugin name", e.Name)
 			}
 		default:
 			return fmt.Errorf("entry kind %q", e.Kind)
@@ -585,6 +673,9 @@ func validate(c C18Case) error {
 	}
 	if c.SyncFn != "" && c.SyncFn != "fail_before" && c.SyncFn != "fail_after" {
 		return fmt.Errorf("unknown runtime_syncfn %q", c.SyncFn)
+	}
+	if !isPathShape(c.PluginPath) || !isPathShape(c.ConfPath) {
+		return fmt.Errorf("unknown path shape %q / %q", c.PluginPath, c.ConfPath)
 	}
 	if _, ok := stopDelays[c.StopAfter]; !ok {
 		return fmt.Errorf("unknown stop_after %q", c.StopAfter)
